@@ -381,7 +381,12 @@ pub fn main(args: &[String]) {
                 }
                 defs.shuffle(&mut r);
                 let group = defs.join("; ");
-                let text = match (base, r.gen_range(0..5)) {
+                let text = match (base, r.gen_range(0..7)) {
+                    // ILL-typed variants: the function over the aliased type is applied to a value of another type
+                    ("int", 5) => format!("({group}; (w : a1) => w) true"),
+                    ("bool", 5) => format!("({group}; (w : a1) => w) 3"),
+                    ("int", 6) => format!("({group}; (w : a1) => w + 1) false"),
+                    ("bool", 6) => format!("if ({group}; (w : a1) => w) 0 then 1 else 2"),
                     // a function over the aliased type, defined in the group and applied to a value of the base type outside
                     ("int", 3) => format!("({group}; (w : a1) => w) 7 + 1"),
                     ("bool", 3) => format!("if ({group}; (w : a1) => w) true then 1 else 2"),
